@@ -5,10 +5,11 @@ import ast
 from typing import Dict, List, Optional, Set, Tuple
 
 from ..cfg import NORMAL, Node, handler_classes
+from ..flow import ALL
 from ..core import Ctx
 from ..flow import names_in
 from ..model import AnalysisError, FunctionInfo, norm_text
-from .common import (owner_tops, pure_guard, judged_in_callers, cleanup_in_reraising_handler, branch_nodes, edge_target, escaping_after, handler_always_raises, handler_exits, handler_key,
+from .common import (facts_at, owner_tops, pure_guard, judged_in_callers, cleanup_in_reraising_handler, branch_nodes, edge_target, escaping_after, handler_always_raises, handler_exits, handler_key,
                      handler_nodes, hint_write_nodes, hint_writers, in_handler, is_const, kwarg,
                      normal_continuation, reachable_from)
 
@@ -579,6 +580,10 @@ def r5(ctx: Ctx) -> None:
                     reason = reason or SWALLOW_OK.get((ctx.prog.anchor(o), k[1]))
             if reason is None and cleanup_in_reraising_handler(ctx, f, hn):
                 reason = "best-effort cleanup nested in a handler that re-raises the original error on every path"
+            if reason is None:
+                from .common import cleanup_in_flagged_finally
+                if cleanup_in_flagged_finally(ctx, f, hn):
+                    reason = "best-effort cleanup in a `finally`, run only under `not <flag>` while the original error is still travelling"
             if reason is None and pure_guard(ctx, f, hn):
                 reason = "guards a pure computation (builtins only, value errors only): no storage / parse failure can be hidden"
             ctx.ob("C04.R5", f, handler_key(ctx, f, hn), hn, reason is not None,
@@ -594,11 +599,12 @@ def r6(ctx: Ctx) -> None:
     ctx.rule("C04.R6", "an ambiguous commit-point failure deletes nothing: on the AmbiguousCommitError route out of the commit chain "
              "no handler / finally body reaches a storage delete", 2)
     from ..flow import names_in as _names_in
-    for f, n, _is_write in commit_chain(ctx):
+    def route(f, n, _is_write, exc_cls):  # type: ignore[no-untyped-def]
         g = ctx.cfg(f)
         bad: List[str] = []
-        # walk the frames outward as an AmbiguousCommitError would
+        # walk the frames outward as an exception of class exc_cls would
         live = True
+        amb_handlers: Dict[int, ast.ExceptHandler] = {}
         for fr in reversed(n.frames):
             if not live:
                 break
@@ -608,13 +614,14 @@ def r6(ctx: Ctx) -> None:
             if fr.part == "body":
                 for h in t.handlers:  # type: ignore[attr-defined]
                     hcs = handler_classes(h)
-                    full = any(ctx.prog.exc_is_subclass("AmbiguousCommitError", hc) for hc in hcs)
+                    full = any(ctx.prog.exc_is_subclass(exc_cls, hc) for hc in hcs)
                     if not full:
                         continue
+                    amb_handlers[id(t)] = h
                     dels = [d for d in g.calls() if in_handler(d, h) and (ctx.eff.storage_op(d) == "delete_file"
                             or any(tt.name == "_rollback" and _is_deleting(d) for tt in ctx.eff.callees(f, d)))]
                     for d in dels:
-                        bad.append(f"{f.file}:{d.lineno} `{d.text[:60]}` in `except {','.join(hcs)}` runs on an ambiguous failure")
+                        bad.append(f"{f.file}:{d.lineno} `{d.text[:60]}` in `except {','.join(hcs)}` runs on this route")
                     hn = next((x for x in g.nodes if x.kind == "handler" and x.ast is h), None)
                     if hn is not None:
                         ex = handler_exits(ctx, f, hn)
@@ -635,9 +642,36 @@ def r6(ctx: Ctx) -> None:
                 for d in fin_nodes:
                     if ctx.eff.storage_op(d) != "delete_file":
                         continue
-                    # tolerated only if guarded by a flag that the ambiguous path cannot satisfy - not decidable here:
-                    # a delete in a finally that an AmbiguousCommitError passes through is reported
+                    # tolerated only if guarded by a flag that the ambiguous path cannot satisfy: the delete runs under
+                    # `not <flag>` and the AmbiguousCommitError handler of the SAME try sets `<flag> = True` before each raise
+                    h_amb = amb_handlers.get(id(t))
+                    flags_ = set()
+                    for pol_, e_, _a in facts_at(ctx, f, d):
+                        if pol_ == "false" and isinstance(e_, ast.Name):
+                            flags_.add(e_.id)
+                        if pol_ == "true" and isinstance(e_, ast.UnaryOp) and isinstance(e_.op, ast.Not) and isinstance(e_.operand, ast.Name):
+                            flags_.add(e_.operand.id)
+                    if h_amb is not None and flags_:
+                        hn_ = next((x for x in g.nodes if x.kind == "handler" and x.ast is h_amb), None)
+                        dom_ = ctx.dom(f, ALL)
+                        rs_ = [x for x in g.nodes if x.kind == "raise" and in_handler(x, h_amb)]
+                        sets_ = [x for x in g.nodes if x.kind == "stmt" and isinstance(x.ast, ast.Assign) and in_handler(x, h_amb)
+                                 and any(isinstance(tg, ast.Name) and tg.id in flags_ for tg in x.ast.targets) and is_const(x.ast.value, True)]
+                        resets_ = [x for x in g.nodes if x.kind == "stmt" and isinstance(x.ast, ast.Assign) and in_handler(x, h_amb)
+                                   and any(isinstance(tg, ast.Name) and tg.id in flags_ for tg in x.ast.targets) and not is_const(x.ast.value, True)]
+                        if hn_ is not None and rs_ and not resets_ and all(any(s_.id in dom_[r_.id] for s_ in sets_) for r_ in rs_):
+                            continue
                     bad.append(f"{f.file}:{d.lineno} `{d.text[:60]}` in a `finally` the ambiguous error passes through")
+        return bad
+
+    for f, n, _is_write in commit_chain(ctx):
+        bad = route(f, n, _is_write, "AmbiguousCommitError")
+        # the same walk for an interrupt raised once the commit-point call was entered (the pointer may have moved): a
+        # flag-guarded cleanup in a `finally` is fine only if a BaseException handler marks the outcome as unknown first
+        bad_i = [b_ for b_ in route(f, n, _is_write, "KeyboardInterrupt") if "converts the ambiguous" not in b_ and "swallows the ambiguous" not in b_]
+        ctx.ob("C04.R6", f, "no delete on the interrupt route from this commit-point call", n, not bad_i,
+               "KeyboardInterrupt / SystemExit after the commit-point call was entered leaves every written file in place",
+               witness=sorted(set(bad_i))[:6] or None, text="interrupt:" + n.text[:40])
         ctx.ob("C04.R6", f, "no delete on the ambiguous route from this commit-point call", n, not bad,
                "when the outcome of the pointer write is unknowable no file written by the transaction (incl. the new metadata "
                "file the pointer may already name) is deleted", witness=sorted(set(bad))[:6] or None)
